@@ -59,6 +59,24 @@ fn main() {
         std::process::exit(2);
     };
 
+    // ---- C20 differential: dump the outputs of this build / compare two dumps
+    if let Some(file) = arg_value(&args, "--dump") {
+        let d = props::c20::dump(seed);
+        std::fs::write(&file, serde_json::to_string(&d).unwrap()).expect("write dump");
+        std::process::exit(0);
+    }
+    if let Some(pos) = args.iter().position(|a| a == "--diff") {
+        let (fa, fb, na, nb) = (&args[pos + 1], &args[pos + 2], &args[pos + 3], &args[pos + 4]);
+        let a: Value = serde_json::from_str(&std::fs::read_to_string(fa).expect("dump a")).expect("json a");
+        let b: Value = serde_json::from_str(&std::fs::read_to_string(fb).expect("dump b")).expect("json b");
+        let (report, viol) = props::c20::diff(&a, &b, na, nb);
+        println!("DIFF-REPORT {report}");
+        for v in &viol {
+            println!("DIFF-VIOLATION {v}");
+        }
+        std::process::exit(if viol.is_empty() { 0 } else { 1 });
+    }
+
     // ---- corpus modes (Miri engine): emit small cases from the property's own generators natively,
     //      replay them in a build without hooks under Miri, which turns UB into an error
     if let Some(file) = arg_value(&args, "--emit-corpus") {
